@@ -155,6 +155,7 @@ func c17frames(env sched.Env) *sched.Report {
 	step := 1
 	run := func(f c17frame) {
 		rep.Execs++
+		sched.Progress(nil)
 		sched.Progress(f)
 		sig, detail := c17one(c, s, f)
 		rep.Outcomes[c17class(f)]++
@@ -193,6 +194,7 @@ func c17frames(env sched.Env) *sched.Report {
 		for typ := 0; typ <= 10; typ++ {
 			for n := 0; n <= 4093; n++ {
 				rep.Execs++
+				sched.Progress(nil)
 				p := c17payload(n)
 				if err := sendMessage(c, &message{Type: messageType(typ), Len: uint16(n), Data: p}); err != nil {
 					continue
@@ -440,6 +442,7 @@ func c17sequences(env sched.Env) *sched.Report {
 	n := 0
 	if env.Shard == 0 {
 		rep.Execs++
+		sched.Progress(nil)
 		cs := c17seq{Drop: "alltypes"}
 		if sig, detail := c17handover(cs); sig != "" {
 			sigs[sig] = true
@@ -469,6 +472,7 @@ func c17sequences(env sched.Env) *sched.Report {
 					return
 				}
 				rep.Execs++
+				sched.Progress(nil)
 				rep.Transitions += int64(len(cs.Seq))
 				sched.Progress(cs)
 				sig, detail := c17handover(cs)
